@@ -259,6 +259,9 @@ def selectors(rng, case):
         cov.append(".gitignore")
     non = ["LICENSES/" + n for n in case["lic"]] + [x["p"] for x in case.get("extra", []) if x["k"] in ("plain", "empty", "gitignored")]
     non += [f["p"] + ".license" for f in case["files"] if f["how"] == "dotlicense"]
+    # the global licensing files themselves: REUSE.toml (excluded by name, at any depth), .reuse/dep5 (excluded through its directory)
+    non += {"toml": ["REUSE.toml"], "dep5": [".reuse/dep5"]}.get(case["glob"], [])
+    non += [(t["dir"] + "/" if t["dir"] else "") + "REUSE.toml" for t in case.get("tomls", [])]
     dirs = sorted({os.path.dirname(p) for p in cov if os.path.dirname(p)}) + ["LICENSES"] + [x["p"] for x in case.get("extra", []) if x["k"] == "dir"]
     if not case["lic"]:
         dirs.remove("LICENSES")
